@@ -68,6 +68,7 @@ class Part:
         self.samples = []
         self.counters = {}        # clause / bookkeeping counters
         self.caps = []            # caps hit (must stay empty for an exhaustive claim)
+        self.errors = []          # tracebacks of exceptions inside the checking code (harness errors)
 
     # -- bookkeeping ---------------------------------------------------------------------------
     def count(self, key, n=1):
@@ -109,6 +110,8 @@ class Part:
         for k, c in other.counters.items():
             self.counters[k] = self.counters.get(k, 0) + c
         self.caps += other.caps
+        if len(self.errors) < 3:
+            self.errors += other.errors
 
 
 def round_sig(v, sig=9):
